@@ -24,6 +24,10 @@ def build(H, tier, seed):
     D.vc_call_binary(H)
     D.vc_unary_call(H)
     D.vc_registry_call(H)
+    from contracts import access_c as A
+    A.vc_grade(H)
+    A.vc_trivial_accessors(H)
+    A.vc_map_filter(H)
 
 
 def standins(tier, seed):
@@ -37,4 +41,6 @@ def standins(tier, seed):
              'job': {'kind': 'history', 'module': 'standins.jobs2', 'configs': [c], 'seed': seed * 100 + i}} for i, c in enumerate(cfgs)]
     jobs.append({'name': 'typeid', 'bound': 'all ordered key tuples of every d<=2 algebra and all of length<=3 for d=3: generated function names are pairwise distinct',
                  'job': {'kind': 'typeid', 'module': 'standins.jobs2', 'configs': [dict(p=1), dict(p=2), dict(p=3, maxlen=3)]}})
+    jobs.append({'name': 'aliasing', 'bound': 'grade-block, full, even and sparse operands x 16 accessors / unary / trivial binary calls per algebra: in-place writes into a result never reach the operand and vice versa',
+                 'job': {'kind': 'aliasing', 'module': 'standins.jobs2', 'configs': [dict(p=3), dict(p=2, q=0, r=1), dict(name='2DPGA')], 'seed': seed}})
     return jobs
